@@ -11,7 +11,8 @@ BOUND = [0, 1, 2, 3, 4, 5, 6, 7, 8, 9, 126, 127, 128, 255, 256, 888, 889, 890, 1
 def full_config(rng, nservers=1, nodeid=None, minimal=False, drop=(), tmrnum=None, freq=None, fill=0):
     nodeid = nodeid if nodeid is not None else rng.choice([1, 1, 5, 64, 127])
     freq = freq or rng.choice([100, 1000, 1000, 10000, 1000000, 300, 32768])
-    tmrnum = tmrnum or rng.choice([16, 16, 16, 8, 4, 2, 1, 32])
+    if tmrnum is None:
+        tmrnum = rng.choice([16, 16, 16, 8, 4, 2, 1, 32, 16, 8, 0])      # 0: a node whose configuration needs no timer gets no pool at all
     cfg = Config(nodeid=nodeid, freq=freq, tmrnum=tmrnum, fill=fill)
     hist = 0 if (minimal or "1003" in drop) else rng.choice([1, 2, 4, 8])
     gen.add_mandatory(cfg, hb=0 if minimal else rng.choice([0, 0, 10, 100, 1000]),
